@@ -150,8 +150,9 @@ def _faults(c, rng):
         if c["phase"] == "fit":
             put("fh:missing", fh="none")
         else:
-            put("fh:different", fh="r:4")
-            put("fh:different", fh="r:1,2,3,4")
+            for other in ("r:4", "r:1,2,3,4"):
+                if other != c["fitfh"]:
+                    put("fh:different", fh=other)
             # a proper part of the fitted horizon, or the fitted horizon and more, is still another horizon
             steps = [int(x) for x in c["fitfh"][2:].split(",")]
             if len(steps) > 1:
